@@ -78,6 +78,14 @@ CURATED = [
     ["Base: s", "Mark: a", "", "# comment", "Mark: b", "", "# trailing", ""],
     ["Base: s", "Watch: In > 2 L/h", "    Mark: w", "", "Mark: m", "Wait: 0.35s", "Wait: 0.1s", "Wait: 0.25s", "Mark: n", ""],
     ["Base: s", "OvA", "Mark: 1", "OvB", "Mark: 2", "Long", "Long", "Forever", "Wait: 0.5s", "Forever", "Stop", ""],
+    ["Base: s", "Mark: a", "Wait: 0.05s", "Mark: b", "Wait: 0.1s", "Mark: c", "Wait: 0.25s", "Mark: d", ""],
+    ["Base: s", "Macro: B", "    Mark: b1", "Macro: A", "    Call macro: B", "    Call macro: A", "Call macro: A", "Mark: after", ""],
+    ["Base: s", "Macro: A", "    Block: MB", "        Mark: in", "        Call macro: A", "        End block", "Call macro: A", "Mark: x", ""],
+    ["Base: s", "Macro: A", "    Mark: a1", "Watch: In > 2 L/h", "    Call macro: A", "Call macro: A", "Macro: A", "    Mark: a2",
+     "Call macro: A", ""],
+    ["Base: s", "Block: B", "    Watch: In > 2 L/h", "        Mark: w", "    Alarm: In > 2 L/h", "        Mark: a", "        End block",
+     "    Wait: 3s", "Mark: after", "Wait: 1s", ""],
+    ["Base: s", "Alarm: In > 2 L/h", "    Block: AB", "        Mark: ab", "        End block", "    Mark: a2", "Wait: 2s", "Mark: m", ""],
     ["Base: s", "Pause: 0.3s", "Mark: p", "Hold: 0.2s", "Mark: h", "Block: B", "    0.2 Mark: inb", "    End block", ""],
 ]
 
